@@ -403,3 +403,24 @@ pub fn m2b(thorough: bool) -> Vec<MsgSpec> {
     }
     v
 }
+
+/// The special-kind messages of `vupd::kinds` (shared with C14), relative to the current serial.
+pub fn kinds() -> Vec<MsgSpec> {
+    let probe = 1_000_000u32;
+    vupd::kinds::all()
+        .iter()
+        .map(|k| {
+            let m = (k.build)(probe);
+            let spec = |rr: &Rr| -> AtomSpec {
+                if rr.rtype == ru::T_SOA && !rr.rdata.is_empty() {
+                    let ser = ru::soa_serial(&rr.rdata).unwrap_or(probe);
+                    let min = u32::from_be_bytes(rr.rdata[rr.rdata.len() - 4..].try_into().unwrap());
+                    AtomSpec { rr: rr.clone(), soa: Some(SoaRel { delta: ser.wrapping_sub(probe), minimum: min }) }
+                } else {
+                    AtomSpec { rr: rr.clone(), soa: None }
+                }
+            };
+            MsgSpec { prereqs: m.prereqs.iter().map(spec).collect(), updates: m.updates.iter().map(spec).collect() }
+        })
+        .collect()
+}
